@@ -46,7 +46,8 @@ PIPES = [["compute_tip_position"],
          ["compute_tip_position", "correct_force_offset",
           "correct_tip_offset"],
          ["compute_tip_position", "correct_tip_offset",
-          "correct_force_slope"]]
+          "correct_force_slope"],
+         []]
 OPTS = [{}, {"correct_tip_offset": {"method": "fit_constant_line"}},
         {"correct_tip_offset": {"method": "deviation_from_baseline"}},
         {"correct_force_slope": {"region": "all", "strategy": "drift"}}]
@@ -427,7 +428,7 @@ def run_history(rec, tap, rng, cid):
     idnt = factory()
     hist = []
     if rng.random() < .75:
-        op = ("prep", copy.deepcopy(PIPES[int(rng.integers(1, len(PIPES)))]),
+        op = ("prep", copy.deepcopy(PIPES[int(rng.integers(1, len(PIPES) - 1))]),
               {})
         hist.append((op, apply_op(idnt, op)))
     if True:
@@ -436,8 +437,19 @@ def run_history(rec, tap, rng, cid):
         hist.append((op, apply_op(idnt, op)))
     nops = int(rng.integers(3, 15))
     last_compared = None
+    queue = []
+    if rng.random() < .15:
+        # preprocessing settings edited directly (options alone, or a
+        # pipeline alone), then a fit and its repetition
+        ed = [{"preprocessing_options":
+               copy.deepcopy(OPTS[int(rng.integers(len(OPTS)))])},
+              {"preprocessing":
+               copy.deepcopy(PIPES[int(rng.integers(len(PIPES)))])}][
+            int(rng.integers(2))]
+        queue = [("edit", ed), ("fit", {}), ("fit0",), ("fit0",)]
+        rec.event("scripted prefix: direct preprocessing edit, fit, refit")
     for step in range(nops):
-        op = gen_op(rng)
+        op = queue.pop(0) if queue else gen_op(rng)
         before = snapshot(idnt)
         n0 = tap.nfit()
         res = apply_op(idnt, op)
